@@ -668,6 +668,10 @@ def run_unit(unit, timeout=600, with_canary=True):
     if with_canary:
         try:
             ctext, _, cspans, clines = generate(unit, canary=True)
+            if helpers_added and "} // verus!" in ctext:
+                # same auto-extracted helpers as in the main run
+                extra_all = text[text.index("// auto-extracted helper"):text.rindex("} // verus!")] if "// auto-extracted helper" in text else ""
+                ctext = ctext.replace("} // verus!", extra_all + "\n} // verus!", 1)
             cpath = os.path.join(OUT, unit + "_canary.rs")
             with open(cpath, "w") as f:
                 f.write(ctext)
